@@ -6,7 +6,9 @@ SPEC = {
          "runner": {"pkg": "./netflow/v9", "test": "TestVerifCache", "race": True, "timeout": "30m"}},
     ],
     "rule": "each case = 16..63 goroutines for 0.4..4 s under `go test -race` calling the real insert / retrieve / IRPC.Get / Dump "
-            "on shared (overlap %) and private keys; every lookup is checked complete / own key / not stale / announced, every "
+            "on shared (overlap %) and private keys (three shared and eight private pairs of keys are searched to collide under the "
+            "32-bit hash that picks the shard — one entry for both before the K1 repair —, every sixth address is in its 16-octet "
+            "form); every lookup is checked complete / own key / not stale / announced, every "
             "dump file is loaded back through encoding/json and GetCache; non-trivial = the case ran to the end with all "
             "observations checked; distinct = distinct case line. The model side runs the lock regions extracted from the "
             "current source under adversarial and pseudo-random schedules (`ok` / `race` / `deadlock`).",
